@@ -403,3 +403,12 @@ package bigslice
 //@   ensures  advanced: implies(err != errTypeError, s.frame.data == old(s.frame.data) && s.frame.off == old(s.frame.off) + n && s.frame.len == old(s.frame.len) - n && s.frame.len == s.frame.cap)
 //@   ensures  end-only-after-the-last-row: implies(err != errTypeError, (err == sliceio.EOF) == (old(s.frame.len) == 0) && (err == nil || err == sliceio.EOF))
 //@   modifies s.frame, ColMem
+
+// The reader of shard s of a Const slice is a view of exactly rows [shardOff(n, nshard, s), +shardCnt(n, nshard, s))
+// of the data (by the tiling lemmas these views partition the data); an empty shard gets an empty reader.
+//@ func bigslice.(*constSlice).Reader (shard, deps) (r)
+//@   requires s != nil && s.nshard >= 1 && 0 <= shard && shard < s.nshard && s.frame.len >= 0 && s.frame.len <= s.frame.cap
+//@   overflow checked
+//@   ensures  empty-shard: implies(shardCnt(s.frame.len, s.nshard, shard) == 0, hastype(r, sliceio.EmptyReader))
+//@   ensures  shard-view: implies(shardCnt(s.frame.len, s.nshard, shard) > 0, hastype(r, *constReader) && unbox(r, *constReader).frame.data == s.frame.data && unbox(r, *constReader).frame.off == s.frame.off + shardOff(s.frame.len, s.nshard, shard) && unbox(r, *constReader).frame.len == shardCnt(s.frame.len, s.nshard, shard) && unbox(r, *constReader).op == s)
+//@   modifies nothing
